@@ -6,19 +6,22 @@ import (
 	"qrynverif/evid"
 )
 
+var cfg = evid.Config{
+	Level: "exploration",
+	Rule:  "scripted result sets through the real route table; non-trivial: >= 2 reported series with a 100-row scanner batch boundary inside a series, or a label/line/tag/name string that needs JSON escaping (control byte, quote, backslash, invalid UTF-8, non-BMP)",
+	Assumptions: []string{
+		"rows arrive in the order the generated SQL asks for: series contiguous, fingerprints monotone in the query direction, timestamps monotone inside a series; one label set per fingerprint",
+		"metric rows carry timestamps aligned to max(range, step) inside the queried window (GROUP BY of the LRA / step-fix planners); the expected matrix is the rows re-sampled by qryn's documented FixPeriod rule",
+		"column Go types are those the scanners declare; trace_id is 16 bytes, span_id 8 bytes, payload_type 1 or 2 (table schema / writer)",
+		"invalid UTF-8 is compared modulo U+FFFD replacement",
+		"batches: the channel between producer and writer may carry nil, empty, single-element and large batches in any position (scripted through the LogQL planner plug-in point and a fake ITempoService); series stay contiguous across batches",
+		"Prometheus routes: samples of a series have strictly ascending millisecond timestamps; the expected result is the rows selected by the engine's documented rule (latest sample within the 5 min lookback at each step; every sample of the range for a matrix selector); start/end multiples of 15 s, time in whole seconds; no stale-marker NaNs",
+		"in-process streams: the SQL part of a `| json` / `| logfmt` query returns rows ORDER BY timestamp_ns only (streams interleave); qryn regroups them per 3000-row portion, so one label set may own several stream objects (not judged); every row must appear exactly once",
+	},
+}
+
 func TestProp(t *testing.T) {
-	r := evid.New(t, "C15", evid.Config{
-		Level: "exploration",
-		Rule:  "scripted result sets through the real route table; non-trivial: >= 2 reported series with a 100-row scanner batch boundary inside a series, or a label/line/tag/name string that needs JSON escaping (control byte, quote, backslash, invalid UTF-8, non-BMP)",
-		Assumptions: []string{
-			"rows arrive in the order the generated SQL asks for: series contiguous, fingerprints monotone in the query direction, timestamps monotone inside a series; one label set per fingerprint",
-			"metric rows carry timestamps aligned to max(range, step) inside the queried window (GROUP BY of the LRA / step-fix planners); the expected matrix is the rows re-sampled by qryn's documented FixPeriod rule",
-			"column Go types are those the scanners declare; trace_id is 16 bytes, span_id 8 bytes, payload_type 1 or 2 (table schema / writer)",
-			"invalid UTF-8 is compared modulo U+FFFD replacement",
-			"batches: the channel between producer and writer may carry nil, empty, single-element and large batches in any position (scripted through the LogQL planner plug-in point and a fake ITempoService); series stay contiguous across batches",
-			"Prometheus routes: samples of a series have strictly ascending millisecond timestamps; the expected result is the rows selected by the engine's documented rule (latest sample within the 5 min lookback at each step; every sample of the range for a matrix selector); start/end multiples of 15 s, time in whole seconds; no stale-marker NaNs",
-		},
-	})
+	r := evid.New(t, "C15", cfg)
 	addStreams(r)
 	addMatrix(r)
 	addLists(r)
@@ -28,5 +31,16 @@ func TestProp(t *testing.T) {
 	addTrace(r)
 	addProm(r)
 	addBatches(r)
+	addIP(r, 80, 400)
+	r.Main()
+}
+
+// TestRace runs the in-process streams cases under the race detector (the driver builds this
+// binary with -race): one sub-test per case, so a race report is attributed to the case.
+func TestRace(t *testing.T) {
+	raceT = t
+	defer func() { raceT = nil }()
+	r := evid.New(t, "C15", cfg)
+	addIP(r, 25, 60)
 	r.Main()
 }
